@@ -41,18 +41,20 @@ def adopt(wt, pid, name, needs):
     return 0
 
 def run(name, pids):
+    """applies the change in a scratch worktree of /repo (never in /repo itself) and points the checks at it through VERIF_REPO"""
     dst = os.path.join(SEEDED, name); meta = json.load(open(os.path.join(dst, "meta.json"))); pids = pids or [meta["breaks_property"]]
-    rc, st = sh("git status --porcelain -- pbhhg_py pbhhg_js", cwd=REPO); assert not st.strip(), "/repo is not clean: " + st
-    rc, o = sh(f"git apply {dst}/patch.diff", cwd=REPO); assert rc == 0, o
+    wt = f"/tmp/seedwt_{os.getpid()}"
+    sh(f"git -C {REPO} worktree remove --force {wt}"); rc, o = sh(f"git -C {REPO} worktree add -q --detach {wt} HEAD"); assert rc == 0, o
     res = {}
-    # the evidence files under /verif/evidence must always come from runs on the UNCHANGED tree: keep them aside while the change is applied
+    # the evidence files under /verif/evidence must always come from runs on the UNCHANGED tree: keep them aside meanwhile
     keep = {}
     for pid in pids:
         ev = os.path.join(ROOT, "evidence", f"{pid}.json")
         if os.path.exists(ev): keep[ev] = open(ev, "rb").read()
     try:
+        rc, o = sh(f"git apply {dst}/patch.diff", cwd=wt); assert rc == 0, o
         for pid in pids:
-            t = time.time(); rc, out = sh(f"./check {pid} --tier quick", cwd=ROOT, timeout=3000)
+            t = time.time(); rc, out = sh(f"VERIF_REPO={wt} ./check {pid} --tier quick", cwd=ROOT, timeout=3000)
             viol = [l for l in out.splitlines() if l.startswith("VIOLATION")]
             res[pid] = dict(exit=rc, violation=viol[0] if viol else None, wall_s=round(time.time() - t, 1))
             print(f"{name} vs {pid}: {'caught' if rc == 1 and viol else 'MISSED'}  ({res[pid]['wall_s']}s) {viol[0] if viol else out.strip().splitlines()[-1:]}")
@@ -61,11 +63,13 @@ def run(name, pids):
                 try:
                     b = json.load(open(rp)); fi = b.get("failing_inputs", [])
                     res[pid]["first_failing_input"] = {k: (str(v)[:300]) for k, v in (fi[0].items() if fi else [])}; res[pid]["broken"] = b.get("broken_obligations", [])[:3]
-                    print("    e.g.", json.dumps(res[pid]["first_failing_input"], ensure_ascii=False)[:400], res[pid]["broken"][:1])
+                    print("    e.g.", json.dumps(res[pid]["first_failing_input"], ensure_ascii=False)[:500], str(res[pid]["broken"][:1])[:300])
                 except Exception as e: print("    (replay unreadable)", e)
     finally:
-        sh("git checkout -- pbhhg_py pbhhg_js", cwd=REPO)
+        sh(f"git -C {REPO} worktree remove --force {wt}")
         for ev, data in keep.items(): open(ev, "wb").write(data)
+        # leave the regenerated files and the build as they are for the unchanged tree
+        sh(f"{PY} tools/translate.py {REPO} coq/Gen", cwd=ROOT)
     meta.setdefault("checks", {}).update(res); json.dump(meta, open(os.path.join(dst, "meta.json"), "w"), indent=1, ensure_ascii=False)
     return res
 
